@@ -148,6 +148,21 @@ func drawCRSWorld(t *rapid.T, label string, nTargets int, opts ProgOpts, rulesOp
 	renderRuleFile(rf, rulesOpts, "# rules\n\n", nil)
 	w.Put(rf.Path, rf.Content)
 	cw.RuleFile = rf
+	// further rules files (other id prefixes); one of their rules may be missing, which makes its update fail
+	if chance(t, 30, label+"-morefiles") {
+		for _, pre := range []string{"933", "941"} {
+			if !drawBool(t, label+"-more-"+pre) {
+				continue
+			}
+			id := pre + "100"
+			body := "SecRule ARGS \"@rx old\" \\\n    \"id:" + id + ",\\\n    phase:2\"\n"
+			if chance(t, 35, label+"-missingrule") {
+				body = "# rule " + id + " was removed\n"
+			}
+			w.Put("crs/rules/REQUEST-"+pre+"-OTHER.conf", body)
+			w.Put("crs/regex-assembly/"+id+".ra", joinLines(drawWordList(t, 1, 3, label+"-morew", nil)))
+		}
+	}
 	if chance(t, 50, label+"-cfg") {
 		w.Put("crs/regex-assembly/toolchain.yaml", crsLikeConfig)
 	}
